@@ -755,7 +755,12 @@ def _tour_parser(ctx: Ctx) -> None:
                          and e.node is inner]
                 if reads:
                     n_read += 1
-                    if not any(truth and guard_is(tst, flag)
+                    def needs_flag(tst: ast.AST, truth: bool) -> bool:
+                        while isinstance(tst, ast.UnaryOp) and isinstance(
+                                tst.op, ast.Not):
+                            tst, truth = tst.operand, not truth
+                        return truth and guard_is(tst, flag)
+                    if not any(needs_flag(tst, truth)
                                for tst, truth in q.guards):
                         problems.append("ids are read outside the tour "
                                         "section")
